@@ -1077,3 +1077,21 @@ def spec_header_checks(kept):
     elif annotation not in [a for (_, a, _) in reg]:
         out.append([9, None])
     return out
+
+
+def schemes_wf_obligation():
+    """hypothesis of the C16/C17 theorems: a scheme's column names are distinct (schemes are dicts)"""
+    ensure_repo()
+    from maflib.schemes import NoRestrictionsScheme
+    bad = []
+    for (v, a, nr, cls) in registry():
+        if nr:
+            continue
+        names = cls().column_names()
+        if len(names) != len(set(names)):
+            bad.append(a)
+    probe = NoRestrictionsScheme(column_names=["a", "a", "b", "a"]).column_names()
+    if len(probe) != len(set(probe)):
+        bad.append("NoRestrictionsScheme")
+    return ("schemes-have-distinct-column-names", not bad, "checked %d registry schemes and NoRestrictionsScheme; offenders: %r"
+            % (len(registry()), bad))
